@@ -834,6 +834,12 @@ def run(check):
     check.guarded("BLOCK-DRIVER", rule_block_driver)
     check.guarded("ARROW-BLOCK", rule_arrow_block)
     check.guarded("RECEIVER-TABLE", rule_receiver_table)
+    # an operator listed in the configuration is reported as enabled whatever else the configuration lists
+    # and in whatever order (the dispatch gates of TRAV-DISPATCH rely on these two answers)
+    from . import c05 as _c05
+    from ..engine import Only
+    check.rule("OP-CONFIG", "plus_operator / tpl_operator are filled from a complete scan of the configured entries for an operator entry with the documented source name, and *_is_enabled() report exactly that: an enabled operation is never left uninstrumented because of the order or the company of its configuration entry")
+    check.guarded("OP-CONFIG", lambda c: _c05.rule_op_gates(Only(c, "OP-GATE", "OP-CONFIG", ("/config/", "_is_enabled", "/FLOOR/CsiMethods literals"))))
     check.guarded("SNAPSHOT-ORDER", __import__('iast.statusrules', fromlist=['x']).rule_snapshot_order)
     return {
         "explanation": "Static traversal analysis over the typed HIR of the rewriter: all structural paths of every visitor override are enumerated and each must visit every expression-bearing child of its node (slots computed from the compiled swc_ecma_ast ADT graph) unless the path's conditions match a documented exclusion; plus dispatch/gating of the five transforms, block driver, arrow-body normalisation and receiver table.",
